@@ -74,7 +74,7 @@ def check_conversion(ctx, kind, u1, u2, x, case):
         ctx.violation('C05:conversion-value', {'kind': kind, 'value': x, 'from': u1, 'to': u2, 'got': [r.value, r.unit, type(r).__name__],
                                                'reference': exp, 'ulps': up}, case)
         return
-    if q.value != x or q.unit != u1 or (r is q):
+    if q.value != x or q.unit != u1 or (r is q and u1 != u2):
         ctx.violation('C05:copy-conversion-mutated-receiver', {'kind': kind, 'value': x, 'from': u1, 'to': u2, 'receiver_after': [q.value, q.unit]}, case)
         return
     # in place
